@@ -347,4 +347,15 @@ theorem tsiOps_replicate_add (n : Nat) (ep : Endpoint) (tsi : Nat) :
   | zero => rfl
   | succ m ih => simp [List.replicate_succ, tsiOps, ih]
 
+/-- `n + 1 = 2^64` adds of the same target: the last one overflows -/
+theorem run_replicate_add_overflow (n : Nat) (hn : n = 2 ^ 64 - 1) (ep : Endpoint) (tsi : Nat) :
+    run Filter.new (List.replicate (n + 1) (FOp.add ep tsi)) = .error "add overflow" := by
+  rw [List.replicate_succ', run_append]
+  obtain ⟨f, hf, hrep⟩ := run_frep (List.replicate n (FOp.add ep tsi)) Filter.new (fun _ => 0) (fun _ => 0)
+    frep_new (by intro x; rw [List.length_replicate]; omega) (by intro x; rw [List.length_replicate]; omega)
+  rw [hf]
+  have hc : cntFrom (fun _ => 0) (tsiOps (List.replicate n (FOp.add ep tsi))) (ep, tsi) = 2 ^ 64 - 1 := by
+    rw [tsiOps_replicate_add, cntFrom_replicate_add]; omega
+  simp only [run, applyOp, add_overflow f _ _ ep tsi hrep hc]
+
 end Flute.TsiFilter
